@@ -460,6 +460,41 @@ fn send_sync(src: &mut Src) -> Result<String, String> {
     Ok(o)
 }
 
+// ---------------------------------------------------------------- async delegation
+
+/// For every `pub [unsafe] fn name(..)` of the async iterators that builds a future: the synchronous method its closure calls.
+fn async_delegation(src: &mut Src) -> Result<String, String> {
+    let mut pairs: Vec<String> = vec![];
+    for rel in ["src/iterators/async_iterators/mod.rs", "src/iterators/async_iterators/prod_iter.rs", "src/iterators/async_iterators/work_iter.rs", "src/iterators/async_iterators/cons_iter.rs"] {
+        let text = std::fs::read_to_string(src.root.join(rel)).map_err(|e| format!("{rel}: {e}"))?;
+        let mut rest: &str = &text;
+        while let Some(i) = rest.find("pub fn ").or_else(|| rest.find("pub unsafe fn ")) {
+            let i = [rest.find("pub fn "), rest.find("pub unsafe fn ")].iter().flatten().copied().min().unwrap_or(i);
+            let after = &rest[i..];
+            let sig_end = match (after.find('{'), after.find(';')) { (Some(b), Some(sc)) if b < sc => b, (Some(b), None) => b, _ => { rest = &after[7..]; continue; } };
+            let sig = &after[..sig_end];
+            let name: String = sig.trim_start_matches("pub unsafe fn ").trim_start_matches("pub fn ").chars().take_while(|c| c.is_alphanumeric() || *c == '_').collect();
+            let next = after[7..].find("pub fn ").map(|x| x + 7).unwrap_or(after.len());
+            let next2 = after[7..].find("pub unsafe fn ").map(|x| x + 7).unwrap_or(after.len());
+            let body = &after[..next.min(next2)];
+            if sig.contains("MRBFuture") {
+                let called: String = match body.find(".inner_mut().") { Some(k) => body[k + 13..].chars().take_while(|c| c.is_alphanumeric() || *c == '_').collect(), None => "?".into() };
+                let n_calls = body.matches(".inner_mut().").count();
+                pairs.push(format!("(\"{name}\", \"{called}\", {n_calls})"));
+            }
+            rest = &after[7..];
+        }
+    }
+    pairs.sort(); pairs.dedup();
+    let mut o = format!("def asyncDelegation : List (String × String × Nat) := [\n  {}]\n", pairs.join(",\n  "));
+    // MRBFuture::poll, normalised
+    let file = src.file("src/iterators/async_iterators/mod.rs")?;
+    let f = find_fn(file, "MRBFuture", "poll").ok_or("MRBFuture::poll not found")?;
+    let b = f.block;
+    o.push_str(&format!("def pinPoll : String := \"{}\"\n", quote::quote!(#b).to_string().replace(' ', "").replace('"', "'")));
+    Ok(o)
+}
+
 pub fn table_items(src: &mut Src, items: &mut Vec<Item>) {
     let mut add = |name: &str, origin: &str, body: Result<String, String>| {
         items.push(Item { name: name.into(), file: "Tables", origin: origin.into(), body });
@@ -470,5 +505,6 @@ pub fn table_items(src: &mut Src, items: &mut Vec<Item>) {
     add("skeletons", "call order of the composite operations", skeletons(src));
     add("storeKinds", "src/iterators/sync_iterators/prod_iter.rs: the store each push form performs", store_kinds(src));
     add("sendSync", "every `unsafe impl Send/Sync`, `impl ConcurrentRB`, struct fields, wake call sites under src/", send_sync(src));
+    add("asyncDelegation", "src/iterators/async_iterators/*.rs: which synchronous method each future runs; MRBFuture::poll", async_delegation(src));
     add("pins", "cell primitives (check_zeroed, take_inner, inner_duplicate, Drop) and copy_from_slice_unchecked", pins(src));
 }
